@@ -165,6 +165,10 @@ pub fn run(ctx: &'static Ctx) {
     for s in ["\u{c4}B0501", "P\u{d6}0501", "\u{df}P0A03", "\u{20ac}0501", "PN\u{e9}A03", "\u{e9}\u{e9}A03x", "PNP0A0\u{e9}", "PNP\u{e9}A03", "\u{1f600}501", "PNP0\u{20ac}"] {
         bad_ids.push(s.to_string());
     }
+    for s in ["PN\u{df}0A0", "\u{df}P0A03", "P\u{df}0A03", "PNP0A\u{fb00}", "PNP\u{fb00}03", "PNP\u{fb00}\u{fb00}"] {
+        // sharp s upper-cases to "SS", the ff ligature to "FF": six characters (or seven) that only full case folding turns into an id
+        bad_ids.push(s.to_string());
+    }
     for extra in [256usize, 512, 65_536] {
         for pad in ['0', 'A', 'F', ' '] {
             let tail: String = std::iter::repeat(pad).take(extra).collect();
@@ -264,6 +268,16 @@ pub fn run(ctx: &'static Ctx) {
             v[p] = c;
             let s: String = v.into_iter().collect();
             refuse(&s, "non-ascii-dash");
+        }
+    }
+    // characters whose Unicode case mapping EXPANDS into hex digits or letters (U+FB00 'ff' ligature -> "FF"; sharp s ->
+    // "SS"): a string that becomes well-formed only after full case folding is malformed
+    {
+        let ff = good.replace("ff", "\u{fb00}");
+        for g in [ff.clone(), bgs[0].replacen("ff", "\u{fb00}", 1), "aabbccdd-ee\u{fb00}-0011-2233-445566778899".to_string(), "\u{fb00}\u{fb00}\u{fb00}\u{fb00}-\u{fb00}\u{fb00}-\u{fb00}\u{fb00}-\u{fb00}\u{fb00}-\u{fb00}\u{fb00}\u{fb00}\u{fb00}\u{fb00}\u{fb00}".to_string()] {
+            if g.chars().count() != 36 || g.len() != 36 {
+                refuse(&g, "case-folding-expansion");
+            }
         }
     }
     // wrong lengths that are right modulo 256 / 65536 (a length narrowed before it is compared): a valid identifier followed
